@@ -209,6 +209,7 @@ package fosite
 // receiver's identity, client, session, scopes and audience, and whose form is cut down to the allowed keys.
 //@ interface Requester.Sanitize
 //@   modifies recv.GetRequestForm()
+//@   ensures forall k string :: insl(allowedParameters, k) ==> formget(result.GetRequestForm(), k) == old(formget(recv.GetRequestForm(), k))
 //@   ensures result != nil && !stored[result] == !old(stored[recv]) || result != recv
 //@   ensures result != nil && (result == recv || (fresh(result) && !stored[result]))
 //@   ensures result != recv ==> recv.GetRequestForm() == old(recv.GetRequestForm())
@@ -722,6 +723,9 @@ package fosite
 //@   ensures [C20.sanitize-whitelist] typeis(result, *Request) && fresh(result)
 //@   ensures [C20.sanitize-whitelist] forall k string :: k in rb.Form ==> (insl(allowedParameters, k) || k == "grant_type" || k == "response_type" || k == "scope" || k == "client_id")
 //@   ensures [C20.sanitize-whitelist] forall k string :: k in rb.Form ==> k in a.Form && rb.Form[k] == a.Form[k]
+//@   ensures [C02.sanitize-keeps-allowed] forall k string :: insl(allowedParameters, k) && (k in a.Form) ==> (k in rb.Form) && rb.Form[k] == a.Form[k]
+//@   invariant loop#1 [C02.sanitize-keeps-allowed] forall j int :: 0 <= j && j < $i && j < len(allowedParameters) ==> (allowedParameters[j] in allowed) && allowed[allowedParameters[j]]
+//@   invariant loop#2 [C02.sanitize-keeps-allowed] (forall j int :: 0 <= j && j < len(allowedParameters) ==> (allowedParameters[j] in allowed) && allowed[allowedParameters[j]]) && (forall k string :: $visited(k) && (k in allowed) && allowed[k] ==> (k in b.Form) && b.Form[k] == a.Form[k])
 //@   ensures [C20.sanitize-keeps-grant] rb.Client == a.Client && rb.Session == a.Session && rb.GrantedScope == a.GrantedScope && rb.GrantedAudience == a.GrantedAudience && rb.RequestedScope == a.RequestedScope && rb.RequestedAudience == a.RequestedAudience && rb.RequestedAt == a.RequestedAt && rb.ID == a.ID
 //@   invariant loop#1 [C20.sanitize-whitelist] forall k string :: (k in allowed && allowed[k]) ==> (insl(allowedParameters, k) || k == "grant_type" || k == "response_type" || k == "scope" || k == "client_id")
 //@   invariant loop#2 [C20.sanitize-whitelist] b != a && b.Form != a.Form && a.Form == pre(a.Form) && (forall k string :: (k in allowed && allowed[k]) ==> (insl(allowedParameters, k) || k == "grant_type" || k == "response_type" || k == "scope" || k == "client_id")) && (forall k string :: k in b.Form ==> (k in allowed && allowed[k]) && k in a.Form && b.Form[k] == a.Form[k])
